@@ -79,6 +79,7 @@ class SqliteImpl(SqlImpl):
                 ops.max,
                 ops.fill_null,
                 ops.coalesce,
+                ops.clip,
                 ops.floor,
                 ops.ceil,
             )
